@@ -285,6 +285,27 @@ func uploads(m *Model) []uploadRef {
 	return l
 }
 
+// staleUploadOp re-uses, now and then, the id of an upload that was already
+// completed or aborted (a retried Complete, a late UploadPart, an Abort racing
+// the client's own Complete): the call must fail and leave the object alone.
+func (g *Gen) staleUploadOp(m *Model, kind OpKind) *Op {
+	r := g.R
+	if len(m.Finished) == 0 || !r.Chance(12) {
+		return nil
+	}
+	f := m.Finished[r.Intn(len(m.Finished))]
+	if m.Buckets[f.Bucket] == nil {
+		return nil
+	}
+	op := &Op{Kind: kind, Bucket: f.Bucket, Key: f.Key, UploadID: f.ID, Intent: "upload id of an already " + f.How + " upload"}
+	if kind == OpMpuPart {
+		op.PartNumber = int32(r.Range(1, 2))
+		op.Body = g.body()
+		op.BodyDesc = vkit.Brief(op.Body)
+	}
+	return op
+}
+
 func (g *Gen) pickKind() OpKind {
 	total := 0
 	kinds := make([]OpKind, 0, len(g.P.Weights))
@@ -553,6 +574,9 @@ func (g *Gen) Next(m *Model) *Op {
 			}
 			return op
 		case OpMpuPart:
+			if op := g.staleUploadOp(m, kind); op != nil {
+				return op
+			}
 			ups := uploads(m)
 			if len(ups) == 0 {
 				continue
@@ -576,6 +600,9 @@ func (g *Gen) Next(m *Model) *Op {
 			op.BodyDesc = vkit.Brief(op.Body)
 			return op
 		case OpMpuComplete, OpMpuAbort:
+			if op := g.staleUploadOp(m, kind); op != nil {
+				return op
+			}
 			ups := uploads(m)
 			if len(ups) == 0 {
 				continue
